@@ -129,6 +129,35 @@ def do_replay(path):
     return 1
 
 
+def run_selftest(prop):
+    """Apply each seeded change of this property (seeded/<prop>-*/patch.diff) to a scratch copy of /repo/valida and run the
+    quick check against it: it must report a violation (exit 1).  Scratch copies live in a temporary directory and are removed."""
+    import shutil, subprocess, tempfile
+    here = os.path.dirname(os.path.dirname(os.path.abspath(__file__)))
+    out = {"what": "seeded changes known to break this property, each applied to a scratch copy and checked (quick tier); expected exit 1",
+           "results": {}}
+    seeds = sorted(d for d in os.listdir(os.path.join(here, "seeded")) if d.startswith(prop + "-"))
+    for name in seeds:
+        tmp = tempfile.mkdtemp(prefix="vf_selftest_")
+        try:
+            shutil.copytree("/repo/valida", os.path.join(tmp, "valida"))
+            r = subprocess.run(["git", "apply", "--unsafe-paths", f"--directory={tmp}", os.path.join(here, "seeded", name, "patch.diff")],
+                               cwd=tmp, capture_output=True, text=True)
+            if r.returncode != 0:
+                out["results"][name] = 1          # does not apply to this tree any more: nothing to test
+                out.setdefault("skipped", []).append(name)
+                continue
+            env = dict(os.environ, VALIDA_SRC=tmp, VF_NO_SELFTEST="1", VERIF_TIER="quick")
+            env.pop("PYVC_SECOND_OPINION", None)
+            rr = subprocess.run([os.path.join(here, "check"), prop, "--tier", "quick"], cwd=here, env=env, capture_output=True, text=True, timeout=1800)
+            out["results"][name] = rr.returncode
+        except Exception as e:
+            out["results"][name] = f"error: {e!r}"[:100]
+        finally:
+            shutil.rmtree(tmp, ignore_errors=True)
+    return out
+
+
 def main(argv=None):
     ap = argparse.ArgumentParser()
     ap.add_argument("prop")
@@ -218,12 +247,22 @@ def main(argv=None):
             for idx, tb, w in res["faults"][:3]:
                 faults.append(f"clause {name} witness {json.dumps(w, default=repr)[:300]}: {tb}")
 
+    # ---- thorough tier: the checker checks itself on the seeded changes of this property (scratch copies of the library)
+    selftest = None
+    if tier == "thorough" and not violations and not os.environ.get("VF_NO_SELFTEST") and os.environ.get("VALIDA_SRC", "/repo") == "/repo":
+        selftest = run_selftest(prop)
+        # a missed seed is a weakness of the check, not a statement about the tree: recorded in the evidence and on stderr,
+        # the exit code is not affected
+        selftest["missed"] = sorted(name for name, rc in selftest["results"].items() if rc != 1)
+        for name in selftest["missed"]:
+            print(f"SELF-TEST: the seeded change {name} (known to break {prop}) was not reported (exit {selftest['results'][name]})", file=sys.stderr)
+
     for l in sorted(set(known_lines)):
         print(l)
     for v in violations:
         print(v)
     from vf.evidence import write_evidence
-    write_evidence(prop, tier, seed, proof, bounded, known_lines, violations, faults, time.time() - t0)
+    write_evidence(prop, tier, seed, proof, bounded, known_lines, violations, faults, time.time() - t0, selftest=selftest)
     if faults:
         for f in faults[:5]:
             print("CHECKER-FAULT:", f, file=sys.stderr)
